@@ -23,6 +23,17 @@ class Return(Exception):
         self.v = v
 
 
+class TooLong(dtable.Undecidable):
+    """a loop of the skeleton did not end within the round limit"""
+    loop = None
+
+
+class Diverges(Exception):
+    """a loop of the skeleton came back to its head in the state it had there before: it never ends"""
+    def __init__(self, loop):
+        self.loop = loop
+
+
 class Stop(Exception):
     """raised when the statement holding the `stop` node is reached"""
 
@@ -30,12 +41,16 @@ class Stop(Exception):
 class Skel:
     MAX_ITER = 64
 
-    def __init__(self, fn, env=None, unknown=None, event=None, stop=None):
+    def __init__(self, fn, env=None, unknown=None, event=None, stop=None, mem_default=None, max_iter=None):
         self.fn = fn
         self.env = dict(env or {})
         self.unknown = unknown
         self.event = event
         self.stop = stop
+        self.mem_default = mem_default
+        self.alg = None
+        if max_iter:
+            self.MAX_ITER = max_iter
 
     # ---------------------------------------------------------------- expressions
     def ev(self, e):
@@ -60,6 +75,16 @@ class Skel:
             if d in self.env:
                 return self.env[d]
             return self.unknown(e, self) if self.unknown else None
+        if k == "MemberExpr" and match.this_field(e):
+            key = ("field", match.this_field(e))
+            if key in self.env:
+                return self.env[key]
+            return self.unknown(e, self) if self.unknown else None
+        if k == "UnaryOperator" and e.get("op") == "*":
+            key = self.lvalue(e)
+            if key is not None:
+                return self.load(key)
+            return self.unknown(e, self) if self.unknown else None
         if k == "UnaryOperator":
             op = e.get("op")
             if op in ("++", "--"):
@@ -70,9 +95,11 @@ class Skel:
                 return old if e.get("postfix") else new
             a = self.ev(kids(e)[0])
             if op == "!":
-                return None if a is None else not a
+                return None if not isinstance(a, (int, bool)) else not a
             if op == "-":
-                return None if a is None else -a
+                return None if not isinstance(a, int) else -a
+            if op == "~":
+                return None if not isinstance(a, int) else ~a
             if op == "+":
                 return a
             return self.unknown(e, self) if self.unknown else None
@@ -87,7 +114,7 @@ class Skel:
                 v = self.ev(kids(e)[1])
                 self.store(self.lvalue(kids(e)[0]), v)
                 return v
-            if op in ("+=", "-=", "*=", "/=", "%="):
+            if op in ("+=", "-=", "*=", "/=", "%=", "|=", "&=", "^=", "<<=", ">>="):
                 key = self.lvalue(kids(e)[0])
                 v = self.arith(op[:-1], self.load(key), self.ev(kids(e)[1]), e)
                 self.store(key, v)
@@ -126,21 +153,29 @@ class Skel:
             ip = match.index_parts(e)
             if ip:
                 key = self.lvalue(e)
-                if key in self.env:
-                    return self.env[key]
+                if key is not None and (key in self.env or key[0] == "mem"):
+                    return self.load(key)
             for a in args:
                 self.ev(a)
             return self.unknown(e, self) if self.unknown else None
         ip = match.index_parts(e)
         if ip:
             key = self.lvalue(e)
-            if key in self.env:
-                return self.env[key]
+            if key is not None and (key in self.env or key[0] == "mem"):
+                return self.load(key)
         return self.unknown(e, self) if self.unknown else None
 
     def arith(self, op, a, b, e):
         if a is None or b is None:
             return None
+        if self.alg is not None and (not isinstance(a, (int, bool)) or not isinstance(b, (int, bool))):
+            r = self.alg(op, a, b, e)
+            if r is not NotImplemented:
+                return r
+        if not isinstance(a, (int, bool)) or not isinstance(b, (int, bool)):
+            if op in ("==", "!="):
+                return (a == b) if op == "==" else (a != b)
+            return None          # labels do not take part in arithmetic
         if op == "+":
             return a + b
         if op == "-":
@@ -168,6 +203,12 @@ class Skel:
             return a >> b
         if op == "<<":
             return a << b
+        if op == "&":
+            return a & b
+        if op == "|":
+            return a | b
+        if op == "^":
+            return a ^ b
         return None
 
     def lvalue(self, e):
@@ -177,10 +218,19 @@ class Skel:
         d = ref_of(e)
         if d is not None:
             return d
+        if e is not None and e["k"] == "MemberExpr" and match.this_field(e):
+            return ("field", match.this_field(e))
+        if e is not None and e["k"] == "UnaryOperator" and e.get("op") == "*":
+            a = self.ev(kids(e)[0])
+            return ("mem", a) if isinstance(a, int) else None
         ip = match.index_parts(e)
         if ip:
-            base = self.lvalue(ip[0])
+            bty = (strip_casts(ip[0]).get("ty") or "").rstrip()
             idx = self.ev(ip[1])
+            if bty.endswith("*") or bty.endswith("]"):
+                a = self.ev(ip[0])
+                return ("mem", a + idx) if isinstance(a, int) and isinstance(idx, int) else None
+            base = self.lvalue(ip[0])
             if base is not None and idx is not None:
                 return ("elem", base, idx)
         return None
@@ -188,7 +238,11 @@ class Skel:
     def load(self, key):
         if key is None:
             return None
-        return self.env.get(key)
+        if key in self.env:
+            return self.env[key]
+        if isinstance(key, tuple) and key[0] == "mem" and self.mem_default is not None:
+            return self.mem_default(key[1])
+        return None
 
     def store(self, key, v):
         if key is not None:
@@ -234,7 +288,15 @@ class Skel:
                 self.stmt(init)
             n = 0
             first = k == "DoStmt"
+            seen = set()
             while True:
+                try:
+                    snap = frozenset(self.env.items())
+                    if snap in seen:
+                        raise Diverges(s)
+                    seen.add(snap)
+                except TypeError:
+                    pass
                 if not first:
                     c = self.ev(cond) if cond is not None else True
                     if c is None:
@@ -244,7 +306,9 @@ class Skel:
                 first = False
                 n += 1
                 if n > self.MAX_ITER:
-                    raise dtable.Undecidable("%s: loop at line %s does not end within %d rounds of the skeleton" % (self.fn.full, s.get("l"), self.MAX_ITER))
+                    ex = TooLong("%s: loop at line %s does not end within %d rounds of the skeleton" % (self.fn.full, s.get("l"), self.MAX_ITER))
+                    ex.loop = s
+                    raise ex
                 try:
                     self.stmt(body)
                 except _Break:
@@ -260,7 +324,43 @@ class Skel:
             raise _Break()
         if k == "ContinueStmt":
             raise _Continue()
-        if k in ("SwitchStmt", "GotoStmt", "CXXTryStmt", "LabelStmt", "CXXForRangeStmt"):
+        if k == "SwitchStmt":
+            c = self.ev(kids(s)[0])
+            if not isinstance(c, int):
+                raise dtable.Undecidable("%s: switch on data at line %s" % (self.fn.full, s.get("l")))
+            flat = []
+
+            def add(x):
+                if x is None:
+                    return
+                if x["k"] == "CaseStmt":
+                    flat.append(("case", x.get("val")))
+                    add(kids(x)[0])
+                elif x["k"] == "DefaultStmt":
+                    flat.append(("default", None))
+                    add(kids(x)[0])
+                else:
+                    flat.append(("stmt", x))
+            body = kids(s)[1]
+            for x in (kids(body) if body["k"] == "CompoundStmt" else [body]):
+                add(x)
+            start = next((i for i, f in enumerate(flat) if f[0] == "case" and f[1] == c), None)
+            if start is None:
+                start = next((i for i, f in enumerate(flat) if f[0] == "default"), None)
+            if start is None:
+                return
+            try:
+                for f in flat[start:]:
+                    if f[0] == "stmt":
+                        self.stmt(f[1])
+            except _Break:
+                pass
+            return
+        if k == "AttributedStmt":
+            for x in kids(s):
+                self.stmt(x)
+            return
+        if k in ("GotoStmt", "CXXTryStmt", "LabelStmt", "CXXForRangeStmt"):
             raise dtable.Undecidable("%s: %s in the skeleton at line %s" % (self.fn.full, k, s.get("l")))
         self.ev(s)
 
